@@ -6,14 +6,16 @@
 
     spec oracle: the node survives every event (property text: no peer input,
     in any order, crashes the node or stops a background loop).
-    No known-finding codes: the four findings of this property (group
+    No known-finding codes: the seven findings of this property (group
     overrun in the pending loop, Header.TxCount sizing the allocations of
     addLtBlock, nil validator under disableValidation, wrapping int64 range
-    test of the download serving handlers / ProcGetBlockDetailsMsg) are
-    repaired in the code and in the model; an implementation that dies
-    anywhere is a violation. *)
+    test of the download serving handlers / ProcGetBlockDetailsMsg, the same
+    test in ProcGetHeadersMsg behind the p2pstore header handlers and in
+    GetBlockSequences, the peer's Count handed to NearestPeers by the
+    shard-peer handler) are repaired in the code and in the model; an
+    implementation that dies anywhere is a violation. *)
 From Coq Require Import List ZArith NArith Bool String.
-From C33 Require Import Lib.Harness C33.Model C33.Streams.
+From C33 Require Import Lib.Harness C33.Model C33.Streams C33.Store.
 Import ListNotations.
 Open Scope Z_scope.
 
@@ -50,6 +52,14 @@ Inductive sreq := SOld (r : rd (option (Z * Z))) | SNew (r : rd (Z * Z)) | SDire
 Inductive sobs := SBlocks (hs : list Z) | SEof | SReset.
 Inductive vreq := VNew (r : rd vmsg) | VOld (r : rd (option vmsg)).
 Record vobs := mkVobs { vo_class : Z; vo_from : gostring; vo_eff : list peff }.
+(** [CaseStore]: requests to the p2pstore stream handlers of a node host in
+    front of a REAL test node (blockchain module, local chunk store with the
+    bodies [se_db], routing table of [se_npeers] peers), and ranges sent to the
+    blockchain module directly as the rpc module does; per completed request
+    what the requester read and whether a writer on the routing table was
+    found blocked afterwards (the harness stops the case there); index of the
+    request the process did not survive *)
+Inductive stobs := OReset | OEof | OReply (r : reply).
 
 Inductive case :=
 | Case (c : config) (p0 : pool) (steps : list (event * obs))
@@ -58,7 +68,8 @@ Inductive case :=
 | CaseSrv (tip mode : Z) (steps : list (sreq * (option (Z * Z) * sobs))) (alive : bool)
 | CaseSrvLive (tip : Z) (reqs : list sreq) (crash : option nat)
 | CaseVer (channel : Z) (pubs maddrs : list gostring) (steps : list (vreq * vobs)) (alive : bool)
-| CaseLim (lim : gostring) (steps : list (rd gostring * Z)) (alive : bool).
+| CaseLim (lim : gostring) (steps : list (rd gostring * Z)) (alive : bool)
+| CaseStore (e : stenv) (reqs : list streq) (obs : list (stobs * bool)) (crash : option nat).
 
 Definition slot_eqb := option_eqb N.eqb.
 
@@ -271,6 +282,63 @@ Definition lim_class (o : out bool) : Z :=
 Definition check_lim (lim : gostring) (steps : list (rd gostring * Z)) (alive : bool) : verdict :=
   (alive && forallb (fun x => lim_class (refresh_one lim (fst x)) =? snd x) steps, alive, 0%N).
 
+(** ** p2pstore handlers.  spec oracle (on what the implementation showed): the
+    process survived every request, no request left the routing table blocked,
+    and no reply is longer than the limit of its kind (10000 headers, 1000
+    sequence entries) *)
+Definition reply_eqb (a b : reply) : bool :=
+  match a, b with
+  | RError, RError | RNode, RNode => true
+  | RHeaders x, RHeaders y => list_eqb Z.eqb x y
+  | RRecords x, RRecords y | RBodies x, RBodies y | RPeers x, RPeers y => x =? y
+  | RSeqs x1 x2, RSeqs y1 y2 => (x1 =? y1) && (x2 =? y2)
+  | _, _ => false
+  end.
+
+Definition stobs_agree (o : out reply) (b : stobs) : bool :=
+  match o, b with
+  | Done r, OReply r' => reply_eqb r r'
+  | Dropped _, OEof => true
+  | Panicked _, OReset => true
+  | _, _ => false
+  end.
+
+Definition reply_bounded (b : stobs) : bool :=
+  match b with
+  | OReply (RHeaders hs) => Z.of_nat (List.length hs) <=? 10000
+  | OReply (RSeqs x y) => x + y <=? 1000
+  | _ => true
+  end.
+
+(** agreement, spec, index of the request the model does not survive *)
+Fixpoint run_store (e : stenv) (reqs : list streq) (obs : list (stobs * bool)) (i : nat)
+  : bool * bool * option nat :=
+  match reqs with
+  | [] => (match obs with [] => true | _ => false end, true, None)
+  | q :: tl =>
+      let r := store_step e q in
+      if store_survives r then
+        match obs with
+        | [] => match run_store e tl [] (S i) with (_, _, d) => (true, true, d) end
+        | (o, stuck) :: otl =>
+            let m := stobs_agree (fst r) o && Bool.eqb (snd r) stuck in
+            if stuck then (m && match otl with [] => true | _ => false end, false, None)
+            else match run_store e tl otl (S i) with
+                 | (m', s', d) => (m && m', reply_bounded o && s', d)
+                 end
+        end
+      else (match obs with [] => true | _ => false end, true, Some i)
+  end.
+
+Definition check_store (e : stenv) (reqs : list streq) (obs : list (stobs * bool)) (crash : option nat) : verdict :=
+  match run_store e reqs obs 0, crash with
+  | (m, s, None), None =>
+      (m && (Nat.eqb (List.length obs) (List.length reqs) || existsb snd obs), s, 0%N)
+  | (_, _, None), Some _ => (false, false, 0%N)
+  | (_, s, Some _), None => (false, s, 0%N)
+  | (m, _, Some i), Some j => (m && Nat.eqb i j, false, 0%N)
+  end.
+
 Definition check_case (cs : case) : verdict :=
   match cs with
   | Case c p0 steps => check_steps c init p0 steps
@@ -280,6 +348,7 @@ Definition check_case (cs : case) : verdict :=
   | CaseSrvLive tip reqs crash => check_srv_live tip reqs crash
   | CaseVer ch pubs maddrs steps alive => check_ver ch pubs maddrs steps alive
   | CaseLim lim steps alive => check_lim lim steps alive
+  | CaseStore e reqs obs crash => check_store e reqs obs crash
   end.
 
 (** * compact wire format *)
@@ -318,3 +387,9 @@ Definition D (h p id : Z) : delivery := (h, Z.to_N p, Z.to_N id).
 Definition Q (p h c : Z) : N * Z * nat := (Z.to_N p, h, Z.to_nat c).
 Definition V (ver : Z) (from recv : gostring) : vmsg := mkV ver from recv.
 Definition VO (class : Z) (from : gostring) (eff : list peff) : vobs := mkVobs class from eff.
+
+(** p2pstore cases: P2PRequest with Headers?, valid signature?, member *)
+Definition PR (h s : bool) (m : pmember) : rd p2preq := RdMsg (mkPR h s m).
+Definition SE (tip last nrec : Z) (db : list Z) (npeers : Z) : stenv :=
+  mkSE tip last nrec db npeers 2147483648 429496729.
+Definition OR (r : reply) (stuck : bool) : stobs * bool := (OReply r, stuck).
